@@ -124,20 +124,6 @@ func normFrames(fs []Frame, firstMustBeJS, lastMustBeJS bool) []Frame {
 func nativeThrower(t string) bool { return strings.HasPrefix(t, "nat") }
 
 func normalize(c Case) Case {
-	if c.Th.T == "natinterrupt" {
-		// the interrupt flag stays set while unwinding: a frame that turned the error into a catchable one
-		// would be interrupted again at once; that combination is outside the model (see Model.v, TNatInterrupt)
-		fix := func(fs []Frame) []Frame {
-			out := append([]Frame{}, fs...)
-			for i := range out {
-				if out[i].H == "returnjoin" {
-					out[i].H = "returnwrap"
-				}
-			}
-			return out
-		}
-		c.Ops, c.Post = fix(c.Ops), fix(c.Post)
-	}
 	if c.HasPost {
 		c.Ops = normFrames(c.Ops, true, true)
 		c.Post = normFrames(c.Post, false, nativeThrower(c.Th.T))
